@@ -42,14 +42,14 @@ class Abort(Exception):
 
 
 class FakeFuture(object):
-    def __init__(self, fn, args):
-        self.fn, self.args = fn, args
+    def __init__(self, fn, args, kwargs=None):
+        self.fn, self.args, self.kwargs = fn, args, (kwargs or {})
         self._res = None
         self._done = False
 
     def compute(self):
         if not self._done:
-            self._res = self.fn(*self.args)
+            self._res = self.fn(*self.args, **self.kwargs)
             self._done = True
         return self._res
 
@@ -87,8 +87,8 @@ def mode_chains(cfg, chain_list):
         def __exit__(self, *a):
             return False
 
-        def submit(self, fn, *args):
-            f = FakeFuture(fn, args)
+        def submit(self, fn, *args, **kwargs):
+            f = FakeFuture(fn, args, kwargs)
             submitted.append(f)
             return f
 
@@ -104,9 +104,10 @@ def mode_chains(cfg, chain_list):
         except Abort:
             pass
         assert len(submitted) == cfg["chains"], len(submitted)
+        by_chain = {}
         for c in chain_list:
             res = submitted[c].compute()
-            assert res["chain_num"] == c
+            assert res["chain_num"] == c, (res["chain_num"], c)
             out[c] = {"digest": trace_digest(res["trace"]), "brief": trace_brief(res["trace"])}
             submitted[c]._done = False  # a worker that runs the chain again recomputes it
     return out
@@ -131,8 +132,8 @@ def mode_orders(cfg):
         def __exit__(self, *a):
             return False
 
-        def submit(self, fn, *args):
-            f = FakeFuture(fn, args)
+        def submit(self, fn, *args, **kwargs):
+            f = FakeFuture(fn, args, kwargs)
             f.chain = len(self.futs)
             if f.chain in cache:
                 f._res, f._done = cache[f.chain], True
@@ -191,7 +192,7 @@ def mode_real(cfg):
 # ------------------------------------------------------------------------------------------
 # steering the REAL spawn pool: binds the TLC model to the implementation
 # ------------------------------------------------------------------------------------------
-def logged_chain(*args):
+def logged_chain(*args, **kwargs):
     """Module-level (picklable by reference from the spawned children, which re-import this file):
     the real chain function, with a start/end line per task appended to the steering log."""
     import time
@@ -200,7 +201,7 @@ def logged_chain(*args):
     path = os.environ["C18_STEER_LOG"]
     with open(path, "a") as fh:
         fh.write("start %d -1\n" % os.getpid())
-    res = _REAL_CHAIN[0](*args) if _REAL_CHAIN else prun.run_phyclone_chain(*args)
+    res = _REAL_CHAIN[0](*args, **kwargs) if _REAL_CHAIN else prun.run_phyclone_chain(*args, **kwargs)
     with open(path, "a") as fh:
         fh.write("end %d %d\n" % (os.getpid(), res["chain_num"]))  # the chain number as the result itself reports it
     return res
